@@ -95,7 +95,9 @@ def c02(tokens, min_len, max_len, strict):
     return probs
 
 
-def c03(v, tokens, max_len, max_sil, drop, init_min=0, init_max_silence=0):
+def c03(v, tokens, max_len, max_sil, drop, init_min=0, init_max_silence=0, validity_of=None):
+    """validity_of(token) -> list of verdicts for the frames INSIDE the token (the validator re-applied by the
+    observer, as the property states); default: the stream's validity pattern at the token's indices."""
     probs = []
     bound = max(max_sil, 0)
     if init_min > 1:
@@ -103,7 +105,7 @@ def c03(v, tokens, max_len, max_sil, drop, init_min=0, init_max_silence=0):
     cont = _continuations(tokens, max_len)
     carried = 0  # invalid run at the end of the previous token (if it was cut and this one continues it)
     for k, (data, s, e) in enumerate(tokens):
-        vv = v[s : e + 1]
+        vv = v[s : e + 1] if validity_of is None else validity_of((data, s, e))
         if not any(vv):
             probs.append(("token-without-valid-frame", {"token_index": k, "start": s, "end": e}))
         if not cont[k] and vv and not vv[0]:
